@@ -249,6 +249,103 @@ Definition gi_pow (al : alias) (P I : itv T) (n : N) : itv T :=
 
 End Generic.
 
+(* ------------------------------------------------------------------ interval.c: set operations and updates
+   (the dyadic versions; the value-level set_a / set_b / collapse_to have the same shape, see below) *)
+Section GenericSets.
+Context {T : Type} (O : sops T).
+
+(* lp_dyadic_interval_construct_intersection; None = an assertion of the C code fails (disjoint operands) *)
+Definition gi_intersection (I1 I2 : itv T) : option (itv T) :=
+  if ipt I1 then (if gi_contains O I2 (ia I1) then Some I1 else None)
+  else if ipt I2 then (if gi_contains O I1 (ia I2) then Some I2 else None)
+  else
+    let cmp_a := s_cmp O (ia I1) (ia I2) in
+    let max_a := if cmp_a <? 0 then ia I2 else ia I1 in
+    let a_open := if cmp_a =? 0 then ia_open I1 || ia_open I2
+                  else if cmp_a <? 0 then ia_open I2 else ia_open I1 in
+    let cmp_b := s_cmp O (ib I1) (ib I2) in
+    let min_b := if cmp_b <? 0 then ib I1 else ib I2 in
+    let b_open := if cmp_b =? 0 then ib_open I1 || ib_open I2
+                  else if cmp_b <? 0 then ib_open I1 else ib_open I2 in
+    gi_construct O max_a a_open min_b b_open.
+
+(* lp_dyadic_interval_disjoint *)
+Definition gi_disjoint (I1 I2 : itv T) : bool :=
+  if ipt I1 then negb (gi_contains O I2 (ia I1))
+  else if ipt I2 then negb (gi_contains O I1 (ia I2))
+  else
+    let cmp1 := s_cmp O (ib I1) (ia I2) in
+    if cmp1 <? 0 then true
+    else if (cmp1 =? 0) && (ib_open I1 || ia_open I2) then true
+    else
+      let cmp2 := s_cmp O (ib I2) (ia I1) in
+      if cmp2 <? 0 then true
+      else if (cmp2 =? 0) && (ib_open I2 || ia_open I1) then true
+      else false.
+
+(* lp_dyadic_interval_equals *)
+Definition gi_equals (I1 I2 : itv T) : bool :=
+  if ipt I1 && negb (ipt I2) then false
+  else if negb (ipt I1) && ipt I2 then false
+  else
+    let cmp_a := s_cmp O (ia I1) (ia I2) in
+    if ipt I1 then cmp_a =? 0
+    else if negb (cmp_a =? 0) || negb (Bool.eqb (ia_open I1) (ia_open I2)) then false
+    else
+      let cmp_b := s_cmp O (ib I1) (ib I2) in
+      if negb (cmp_b =? 0) || negb (Bool.eqb (ib_open I1) (ib_open I2)) then false else true.
+
+(* lp_dyadic_interval_cmp_integer / _cmp_dyadic_rational / _cmp_rational: cmpf e = cmp(e, the number) *)
+Definition gi_cmp_elem (cmpf : T -> Z) (I : itv T) : Z :=
+  if ipt I then cmpf (ia I)
+  else
+    let cmp_lower := cmpf (ia I) in
+    if 0 <? cmp_lower then 1
+    else if cmp_lower =? 0 then (if ia_open I then 1 else 0)
+    else
+      let cmp_upper := cmpf (ib I) in
+      if cmp_upper <? 0 then -1
+      else if cmp_upper =? 0 then (if ib_open I then -1 else 0)
+      else 0.
+
+(* lp_dyadic_interval_collapse_to *)
+Definition gi_collapse_to (I : itv T) (q : T) : itv T :=
+  let I1 := iset_a I q in
+  let I2 := if negb (ipt I1) then iset_b I1 (s_zero O) else I1 in
+  iset_pt (iset_bo (iset_ao I2 false) false) true.
+
+(* lp_dyadic_interval_set_a / _set_b; None = assertion *)
+Definition gi_set_a (I : itv T) (a : T) (a_open : bool) : option (itv T) :=
+  if ipt I then
+    let cmp := s_cmp O a (ia I) in
+    if 0 <? cmp then None
+    else if cmp <? 0 then Some (mkI a (ia I) a_open false false)
+    else Some I
+  else
+    let cmp := s_cmp O a (ib I) in
+    if 0 <? cmp then None
+    else if negb (cmp =? 0) then Some (iset_ao (iset_a I a) a_open)
+    else if a_open || ib_open I then None
+    else Some (gi_collapse_to I a).
+Definition gi_set_b (I : itv T) (b : T) (b_open : bool) : option (itv T) :=
+  let cmp := s_cmp O (ia I) b in
+  if 0 <? cmp then None
+  else if negb (cmp =? 0) then
+    let I1 := if ipt I then iset_pt (iset_b I b) false else iset_b I b in
+    Some (iset_bo I1 b_open)
+  else if ia_open I || b_open then None
+  else Some (gi_collapse_to I b).
+
+(* lp_*_interval_assign (I != from) *)
+Definition gi_assign (I from : itv T) : itv T :=
+  if ipt I then
+    if ipt from then iset_a I (ia from)
+    else mkI (ia from) (ib from) (ia_open from) (ib_open from) false
+  else
+    if ipt from then iset_pt (iset_bo (iset_ao (iset_b (iset_a I (ia from)) (s_zero O)) false) false) true
+    else mkI (ia from) (ib from) (ia_open from) (ib_open from) false.
+End GenericSets.
+
 (* ------------------------------------------------------------------ the two instances *)
 
 Definition dy0 : dyadic := mkDy 0 0.
@@ -283,6 +380,71 @@ Definition di_neg := gi_neg dy_ops.
 Definition di_sub := gi_sub dy_ops.
 Definition di_mul := gi_mul dy_ops.
 Definition di_pow := gi_pow dy_ops.
+
+(* ---- dyadic intervals: the rest of dyadic_interval.h *)
+Definition di_intersection := gi_intersection dy_ops.
+Definition di_disjoint := gi_disjoint dy_ops.
+Definition di_equals := gi_equals dy_ops.
+Definition di_cmp_integer (I : ditv) (z : Z) : Z := gi_cmp_elem (fun e => dy_cmp_integer e z) I.
+Definition di_cmp_dyadic (I : ditv) (q : dyadic) : Z := gi_cmp_elem (fun e => dy_cmp e q) I.
+Definition di_cmp_rational (I : ditv) (q : rat) : Z := gi_cmp_elem (fun e => - q_cmp_dyadic q e) I.
+Definition di_collapse_to := gi_collapse_to dy_ops.
+Definition di_set_a := gi_set_a dy_ops.
+Definition di_set_b := gi_set_b dy_ops.
+Definition di_assign := gi_assign dy_ops.
+Definition ri_assign := gi_assign rat_ops.
+
+(* lp_dyadic_interval_construct_from_split: None = I is a point (assertion) *)
+Definition di_from_split (I : ditv) (left_open right_open : bool) : option (ditv * ditv) :=
+  if ipt I then None else
+  let m0 := dy_add NoAlias dy0 (ia I) (ib I) in
+  let m := dy_div_2exp AliasA m0 m0 1 in
+  match di_construct (ia I) (ia_open I) m left_open, di_construct m right_open (ib I) (ib_open I) with
+  | Some l, Some r => Some (l, r)
+  | _, _ => None
+  end.
+
+(* lp_dyadic_interval_scale (in place); None = I is a point (assertion) *)
+Definition di_scale (I : ditv) (n : Z) : option ditv :=
+  if ipt I then None
+  else if 0 <? n then
+    let k := Z.to_N n in
+    Some (iset_b (iset_a I (dy_mul_2exp AliasA (ia I) (ia I) k)) (dy_mul_2exp AliasA (ib I) (ib I) k))
+  else
+    let k := Z.to_N (- n) in
+    Some (iset_b (iset_a I (dy_div_2exp AliasA (ia I) (ia I) k)) (dy_div_2exp AliasA (ib I) (ib I) k)).
+
+(* dyadic_rational_get_distance_size / lp_dyadic_interval_size; None = point (INT_MIN) *)
+Definition dy_distance_size (lower upper : dyadic) : Z :=
+  if (dn lower =? dn upper)%N then z_bits (da upper - da lower) - Z.of_N (dn lower)
+  else if (dn upper <? dn lower)%N then
+    z_bits (da upper * pow2 (dn lower - dn upper) - da lower) - Z.of_N (dn lower)
+  else
+    z_bits (da upper - da lower * pow2 (dn upper - dn lower)) - Z.of_N (dn upper).
+Definition di_size (I : ditv) : option Z := if ipt I then None else Some (dy_distance_size (ia I) (ib I)).
+
+(* lp_dyadic_interval_construct_from_integer / lp_rational_interval_construct_from_integer *)
+Definition di_from_integer (a : Z) (a_open : bool) (b : Z) (b_open : bool) : option ditv :=
+  if b <? a then None
+  else if negb (a =? b) then Some (mkI (dy_from_integer a) (dy_from_integer b) a_open b_open false)
+  else if a_open || b_open then None
+  else Some (gi_point dy_ops (dy_from_integer a)).
+Definition ri_from_integer (a : Z) (a_open : bool) (b : Z) (b_open : bool) : option ritv :=
+  if b <? a then None
+  else if negb (a =? b) then Some (mkI (q_from_integer a) (q_from_integer b) a_open b_open false)
+  else if a_open || b_open then None
+  else Some (gi_point rat_ops (q_from_integer a)).
+
+(* lp_rational_interval_construct_from_dyadic / _from_dyadic_interval *)
+Definition ri_from_dyadic (a : dyadic) (a_open : bool) (b : dyadic) (b_open : bool) : option ritv :=
+  let cmp := dy_cmp a b in
+  if 0 <? cmp then None
+  else if negb (cmp =? 0) then Some (mkI (q_from_dyadic a) (q_from_dyadic b) a_open b_open false)
+  else if a_open || b_open then None
+  else Some (gi_point rat_ops (q_from_dyadic a)).
+Definition ri_from_dyadic_interval (from : ditv) : ritv :=
+  mkI (q_from_dyadic (ia from)) (if ipt from then (0, 1) else q_from_dyadic (ib from))
+      (ia_open from) (ib_open from) (ipt from).
 
 (* ------------------------------------------------------------------ value level (lp_interval_t) *)
 
@@ -502,6 +664,70 @@ Definition vi_cmp_value (I : vitv) (v : value) : Z :=
     else if negb (ib_open I) && (0 <? cmp_v_b) then -1
     else 0.
 Definition vi_contains (I : vitv) (v : value) : bool := vi_cmp_value I v =? 0.
+
+(* lp_value_cmp_rational(v, q) *)
+Definition value_cmp_rational (v : value) (q : rat) : Z :=
+  match v with
+  | VPinf => 1 | VMinf => -1
+  | VInt z => - q_cmp_integer q z
+  | VDy d => - q_cmp_dyadic q d
+  | VRat r => q_cmp r q
+  | VNone => 0
+  end.
+(* lp_rational_interval_contains_value *)
+Definition ri_contains_value (I : ritv) (v : value) : bool :=
+  let cmp_a_v := - value_cmp_rational v (ia I) in
+  if ipt I then cmp_a_v =? 0
+  else if ia_open I && (0 <=? cmp_a_v) then false
+  else if negb (ia_open I) && (0 <? cmp_a_v) then false
+  else
+    let cmp_v_b := value_cmp_rational v (ib I) in
+    if ib_open I && (0 <=? cmp_v_b) then false
+    else if negb (ib_open I) && (0 <? cmp_v_b) then false
+    else true.
+(* lp_rational_interval_contains_integer / _dyadic_rational, as repaired (the pinned functions are `assert(0)`) *)
+Definition ri_contains_integer (I : ritv) (z : Z) : bool := ri_contains I (q_from_integer z).
+Definition ri_contains_dyadic (I : ritv) (d : dyadic) : bool := ri_contains I (q_from_dyadic d).
+
+(* lp_interval_collapse_to / _set_a / _set_b (a point's b is VNone in the model) *)
+Definition vi_collapse_to (I : vitv) (v : value) : vitv := mkI v VNone false false true.
+Definition vi_set_a (I : vitv) (a : value) (a_open : bool) : option vitv :=
+  if ipt I then
+    let cmp := value_cmp a (ia I) in
+    if 0 <? cmp then None
+    else if cmp <? 0 then Some (mkI a (ia I) a_open false false)
+    else Some I
+  else
+    let cmp := value_cmp a (ib I) in
+    if 0 <? cmp then None
+    else if negb (cmp =? 0) then Some (iset_ao (iset_a I a) a_open)
+    else if a_open || ib_open I then None
+    else Some (vi_collapse_to I a).
+Definition vi_set_b (I : vitv) (b : value) (b_open : bool) : option vitv :=
+  let cmp := value_cmp (ia I) b in
+  if 0 <? cmp then None
+  else if negb (cmp =? 0) then
+    let I1 := if ipt I then iset_pt (iset_b I b) false else iset_b I b in
+    Some (iset_bo I1 b_open)
+  else if ia_open I || b_open then None
+  else Some (vi_collapse_to I b).
+(* lp_interval_is_full: looks at the types of a and b only (b of a point is not constructed: VNone here) *)
+Definition vi_is_full (I : vitv) : bool :=
+  match ia I, ib I with VMinf, VPinf => true | _, _ => false end.
+(* lp_interval_size_approx on non-algebraic end points: None = point (INT_MIN), Some None = INT_MAX *)
+Definition value_to_rat (v : value) : option rat :=
+  match v with VInt z => Some (q_from_integer z) | VDy d => Some (q_from_dyadic d) | VRat q => Some q | _ => None end.
+Definition vi_size_approx (I : vitv) : option (option Z) :=
+  if ipt I then None
+  else match ia I, ib I with
+       | VMinf, _ => Some None
+       | _, VPinf => Some None
+       | a, b =>
+         match value_to_rat a, value_to_rat b with
+         | Some l, Some u => let m := q_sub u l in Some (Some (z_bits (fst m) - z_bits (snd m) + 1))
+         | _, _ => Some None
+         end
+       end.
 
 (* ------------------------------------------------------------------ utils/sign_condition.c *)
 
